@@ -198,6 +198,19 @@ static void registry() {
     o[0] = double(s1.size() + s2.size() + s3.size()); } END;
   ENTRY("Utility.str", 1, {40.4464}) { o[0] = double(Utility::str(a[0], 12).size() + Utility::str(a[0], -1).size()); } END;
   ENTRY("GeoCoords.reps", 1, {40.0, 10.0}) { GeoCoords c(a[0], a[1]); o[0] = double(c.GeoRepresentation(3).size() + c.DMSRepresentation(2).size() + c.MGRSRepresentation(2).size() + c.UTMUPSRepresentation(1).size() + c.AltMGRSRepresentation(0).size()); } END;
+  // ---- third batch: remaining constructor overloads; late validation failures ----
+  ENTRY("LambertConformalConic.ctor3", 0, {A0, F0, 0.6427876096865393, 0.766044443118978, 0.766044443118978, 0.6427876096865393, 1.0}) { LambertConformalConic g(a[0], a[1], a[2], a[3], a[4], a[5], a[6]); (void) g; (void) o; } END;
+  ENTRY("AlbersEqualArea.ctor3", 0, {A0, F0, 0.6427876096865393, 0.766044443118978, 0.766044443118978, 0.6427876096865393, 1.0}) { AlbersEqualArea g(a[0], a[1], a[2], a[3], a[4], a[5], a[6]); (void) g; (void) o; } END;
+  ENTRY("Geodesic.ctorx", 0, {A0, F0}) { Geodesic g(a[0], a[1], true); (void) g; (void) o; } END;
+  ENTRY("Rhumb.ctorx", 0, {A0, F0}) { Rhumb g(a[0], a[1], true); (void) g; (void) o; } END;
+  ENTRY("TransverseMercator.ctorx", 0, {A0, F0, 0.9996}) { TransverseMercator g(a[0], a[1], a[2], true, true); (void) g; (void) o; } END;
+  ENTRY("NormalGravity.ctorJ2", 0, {A0, 3.986004418e14, 7.292115e-5, 1.08263e-3}) { NormalGravity g(a[0], a[1], a[2], a[3], false); (void) g; (void) o; } END;
+  ENTRY("EllipticFunction.ctor4", 0, {0.3, 0.2, 0.7, 0.8}) { EllipticFunction g(a[0], a[1], a[2], a[3]); (void) g; (void) o; } END;
+  ENTRY("DAuxLatitude.ctor", 0, {A0, F0}) { DAuxLatitude g(a[0], a[1]); (void) g; (void) o; } END;
+  ENTRY("LocalCartesian.ctor", 3, {48.0, 2.0, 100.0}) { LocalCartesian l(a[0], a[1], a[2]); l.Forward(48.5, 2.5, 200.0, o[0], o[1], o[2]); } END;
+  // a transfer to UPS that fails late (hemisphere mismatch, a[2] = 0 means northpout = false): outputs must stay untouched
+  ENTRY("UTMUPS.TransferHemi", 2, {5.0e5, 9.385e6, 1.0}) { int z = -7; UTMUPS::Transfer(31, true, a[0], a[1], UTMUPS::UPS, a[2] != 0, o[0], o[1], z); if (z != 0) o[0] = -1; } END;
+  ENTRY("UTMUPS.TransferMatch", 2, {2.0e6, 2.3e6, 1.0}) { int z = -7; UTMUPS::Transfer(0, true, a[0], a[1], UTMUPS::STANDARD, a[2] != 0, o[0], o[1], z); if (z != 0) o[0] = -1; } END;
   // ---- functions documented to validate their arguments ----
   ENTRY("UTMUPS.Forward", 4, {40.0, 10.0}) { int z; bool n; UTMUPS::Forward(a[0], a[1], z, n, o[0], o[1], o[2], o[3]); } END;
   ENTRY("UTMUPS.Reverse", 4, {5.0e5, 4.4e6}) { UTMUPS::Reverse(32, true, a[0], a[1], o[0], o[1], o[2], o[3]); } END;
